@@ -12,6 +12,7 @@ pub mod faulty;
 pub mod walcodec;
 pub mod aggworld;
 pub mod http;
+pub mod sched;
 
 pub use rng::Rng;
 
